@@ -9,7 +9,10 @@
 #include <glm/gtx/compatibility.hpp>
 #include <glm/gtx/wrap.hpp>
 #include "glmx.hpp"
-#include <quadmath.h>
+#ifndef __clang__
+#include <quadmath.h>   // libquadmath is a GCC runtime: the constants op exists only in the g++ builds (clang builds are the sanitizer runs)
+#define C11_HAVE_QUAD 1
+#endif
 #include <cfloat>
 using namespace glmx;
 
@@ -161,6 +164,7 @@ template <typename F> static void op_quaternary(const Case& c, Outcome& o) {
   if (!nn) { F a = glm::min(v[0], v[1], v[2], v[3]), b = glm::max(v[0], v[1], v[2], v[3]); if (!(a == lo) || !(b == hi)) { o.bad(4, "min/max of four values"); return; } }
 }
 
+#ifdef C11_HAVE_QUAD
 // ------------------------------------------------------------------------------------------- constants
 struct ConstRow { const char* name; __float128 ref; float f; double d; };
 static std::vector<ConstRow> constants() {
@@ -179,6 +183,7 @@ static void op_constants(const Case& c, Outcome& o) {
   if (!dbl) { float want = (float)r.ref; o.res(b32(r.f)); o.exp(b32(want)); if (b32(r.f) != b32(want)) { std::snprintf(m, sizeof m, "constant %s<float> is not the correctly rounded value", r.name); o.bad(1, m); } }
   else { double want = (double)r.ref; o.res(b64(r.d)); o.exp(b64(want)); if (b64(r.d) != b64(want)) { std::snprintf(m, sizeof m, "constant %s<double> is not the correctly rounded value", r.name); o.bad(2, m); } }
 }
+#endif
 static void op_epsilon(const Case& c, Outcome& o) {
   o.cls(0); o.res(b32(glm::epsilon<float>())); o.exp(b32(FLT_EPSILON)); if (glm::epsilon<float>() != FLT_EPSILON || glm::epsilon<double>() != DBL_EPSILON) o.bad(1, "epsilon<T>() is not the machine epsilon");
 }
@@ -195,7 +200,10 @@ template <typename F> static void reg(Engine& E, const char* tn, Domain quick, s
 }
 
 int main(int argc, char** argv) {
-  Engine E; E.property = "C11"; g_const = constants();
+  Engine E; E.property = "C11";
+#ifdef C11_HAVE_QUAD
+  g_const = constants();
+#endif
   E.assumptions = {"integer-valued references computed by integer conversion in a wider type and cross-checked against libm floor/ceil/nearbyint on every input", "constants compared with libquadmath (__float128) evaluations rounded once to the target type"};
   Domain e32 = F32_EDGE();
   // ties k+0.5 for k < 2^23 step coarse + neighbours, and integers around 2^23..2^32 (iround/uround/roundEven breakpoints)
@@ -210,7 +218,9 @@ int main(int argc, char** argv) {
     size_t first = E.ops.size(); reg<double>(E, "double", F64_EDGE(false), {F64_EDGE(true)}, F64_SPEC());
     for (size_t i = first; i < E.ops.size(); ++i) { Op& op = E.ops[i]; if (op.quick.size() == 1 && op.quick[0].name == "F64_EDGE_reduced") { op.quick.push_back(t64); op.thorough.push_back(t64); } } }
   { Op& op = E.add("floatBitsToInt/Uint,intBitsToFloat,uintBitsToFloat", op_bitcast); op.quick = {e32, range("U32 every 4099th pattern", 0, (1ull << 32) / 4099, false, 4099)}; op.thorough = {range("U32_ALL", 0, 1ull << 32, true)}; op.classes = {"number", "nan-pattern"}; }
+#ifdef C11_HAVE_QUAD
   { Op& op = E.add("constants (ext/scalar_constants + gtc/constants)", op_constants); op.quick = {product("all constants x {float,double}", {range("CONST", 0, g_const.size(), true), range("TYPE", 0, 2, true)})}; op.classes = {"float", "double"}; }
+#endif
   { Op& op = E.add("epsilon", op_epsilon); op.quick = {range("ONE", 0, 1, true)}; }
   return E.main(argc, argv);
 }
